@@ -175,6 +175,7 @@ USchema == [
   inputs |-> [In |-> << [n |-> "a", t |-> NonNull(TInt), hasDef |-> FALSE, def |-> Null],
                         [n |-> "b", t |-> Named("String"), hasDef |-> TRUE, def |-> Str("dflt")],
                         [n |-> "c", t |-> TInt, hasDef |-> TRUE, def |-> NumL("i42")],
+                        [n |-> "r", t |-> NonNull(TInt), hasDef |-> TRUE, def |-> NumL("i42")],
                         [n |-> "l", t |-> ListOf(NonNull(TInt)), hasDef |-> FALSE, def |-> Null],
                         [n |-> "n", t |-> Named("In"), hasDef |-> FALSE, def |-> Null] >>],
   objects |-> {"Thing"} ]
@@ -239,11 +240,11 @@ ElemsIn(S, et, xs, i, rx) ==
           ELSE [out |-> Both(r.out, rest.out), val |-> Lst(<<r.val>> \o rest.val.xs), path |-> <<>>]
 
 \* input objects: required fields present, defaults filled in (and conforming to the field's type);
-\* a field that is absent or null and has no default is not part of the value
+\* a field that is null - written so, or absent with no default - is not part of the value
 FieldsIn(S, fds, f, i, rx) ==
   IF i > Len(fds) THEN Ok(Obj(EmptyFn))
   ELSE LET fd == fds[i]
-           present == fd.n \in DOMAIN f /\ f[fd.n].k # "null"
+           present == fd.n \in DOMAIN f          \* null written for a field is a value: the default is for a field left out
            r == IF present THEN CoerceIn(S, fd.t, f[fd.n], rx)
                 ELSE IF fd.hasDef THEN CoerceIn(S, fd.t, fd.def, rx)
                 ELSE IF fd.t.k = "nonnull" THEN Err(<<>>)
@@ -252,7 +253,7 @@ FieldsIn(S, fds, f, i, rx) ==
        IN IF r.out = "err" THEN Err(<<PKey(fd.n)>> \o r.path)
           ELSE IF rest.out = "err" THEN rest
           ELSE [out |-> Both(r.out, rest.out), path |-> <<>>,
-                val |-> Obj(IF r.val.k = "null" THEN rest.val.f ELSE Put(rest.val.f, fd.n, r.val))]
+                val |-> Obj(IF r.val.k = "null" /\ ~present THEN rest.val.f ELSE Put(rest.val.f, fd.n, r.val))]
 
 \* variables occurring inside literals stand for their (coerced) values
 RECURSIVE Subst(_, _)
@@ -260,6 +261,14 @@ Subst(env, v) ==
   CASE v.k = "var" -> env[v.n]
     [] v.k = "list" -> Lst([i \in DOMAIN v.xs |-> Subst(env, v.xs[i])])
     [] v.k = "obj" -> Obj([x \in DOMAIN v.f |-> Subst(env, v.f[x])])
+    [] OTHER -> v
+
+\* the value as the resolver sees it: a null field and a field that is not there are one thing (a Go map lookup
+\* yields nil for both), so handed-over values are compared without their null fields
+RECURSIVE Strip(_)
+Strip(v) ==
+  CASE v.k = "list" -> Lst([i \in DOMAIN v.xs |-> Strip(v.xs[i])])
+    [] v.k = "obj" -> Obj([x \in {y \in DOMAIN v.f : v.f[y].k # "null"} |-> Strip(v.f[x])])
     [] OTHER -> v
 
 \* a variable's value: the caller's value takes precedence over the default
@@ -278,8 +287,8 @@ ArgOutcome(S, at, lit, vds, given, rx) ==
       env == [n \in VarNames(vds) |-> vr[n].val]
       a == CoerceIn(S, at, Subst(env, lit), rx)
   IN IF (\E n \in VarNames(vds) : vr[n].out = "err") \/ a.out = "err" THEN [out |-> "reject"]
-     ELSE IF (\E n \in VarNames(vds) : vr[n].out = "may") \/ a.out = "may" THEN [out |-> "may", val |-> a.val]
-     ELSE [out |-> "call", val |-> a.val]
+     ELSE IF (\E n \in VarNames(vds) : vr[n].out = "may") \/ a.out = "may" THEN [out |-> "may", val |-> Strip(a.val)]
+     ELSE [out |-> "call", val |-> Strip(a.val)]
 
 \* C04 "conforms to the declared type" as a predicate on handed-over values (checked by TLC on
 \* everything CoerceIn accepts: MCCoerce!OracleConforms)
@@ -294,7 +303,7 @@ Conforms(S, t, v) ==
        /\ DOMAIN v.f \subseteq InNames(S, t.n)
        /\ \A fd \in Range(InFields(S, t.n)) :
              IF fd.n \in DOMAIN v.f THEN Conforms(S, fd.t, v.f[fd.n])
-             ELSE fd.t.k # "nonnull" /\ ~fd.hasDef
+             ELSE fd.t.k # "nonnull"      \* (null: written so, or left out where there is no default)
   ELSE CASE t.n = "Int" -> v.k = "num" /\ v.g = "int32" /\ Pt[v.p].int /\ Pt[v.p].i32
          [] t.n = "Float" -> v.k = "num" /\ v.g = "float32" /\ Pt[v.p].f32
          [] t.n = "Float64" -> v.k = "num" /\ v.g = "float64" /\ Pt[v.p].fin
@@ -386,13 +395,13 @@ CoIn(S, t, v, cx) ==
 CoInFields(S, fds, f, i, cx) ==
   IF i > Len(fds) THEN R(TRUE, Obj(EmptyFn))
   ELSE LET fd == fds[i]
-           present == fd.n \in DOMAIN f /\ f[fd.n].k # "null"
+           present == fd.n \in DOMAIN f
            r == IF present THEN CoIn(S, fd.t, f[fd.n], cx)
                 ELSE IF fd.hasDef THEN (IF "DefaultNotCoerced" \in cx.dv THEN R(TRUE, fd.def) ELSE CoIn(S, fd.t, fd.def, cx))
                 ELSE IF fd.t.k = "nonnull" THEN Fail
                 ELSE R(TRUE, Null)
            rest == CoInFields(S, fds, f, i + 1, cx)
-       IN R(r.ok /\ rest.ok, Obj(IF r.val.k = "null" THEN rest.val.f ELSE Put(rest.val.f, fd.n, r.val)))
+       IN R(r.ok /\ rest.ok, Obj(IF r.val.k = "null" /\ ~present THEN rest.val.f ELSE Put(rest.val.f, fd.n, r.val)))
 
 \* Root.replaceArgVars: the walk over the literal written for an argument of type at (NoType when the
 \* enclosing literal gave no type).  env holds the operation's variable values.
@@ -436,7 +445,7 @@ ImplOutcome(S, at, lit, vds, given, cx) ==
       a == LitIn(S, at, lit, env, cx)
   IN IF \E n \in VarNames(vds) : ~vr[n].ok THEN [out |-> "varerr"]
      ELSE IF ~a.ok THEN [out |-> "fielderr"]
-     ELSE [out |-> "call", val |-> a.val]
+     ELSE [out |-> "call", val |-> Strip(a.val)]
 
 \* M's outcome m is one the property's outcome s allows
 CompatIn(s, m) ==
